@@ -76,7 +76,8 @@ def get_const_info(const_index, const_list):
 
     arg_repr = (
         prefer_double_quote(repr(arg_val))
-        if isinstance(arg_val, str)
+        # (a Python 2 unicode constant prints with its u prefix: not a bare quoted string)
+        if isinstance(arg_val, str) and not isinstance(arg_val, UnicodeForPython3)
         else better_repr(arg_val)
         if isinstance(arg_val, (types.CodeType, set, frozenset))
         else repr(arg_val)
